@@ -109,9 +109,9 @@ def _bad_annotation(R, level):
         text = R.choice([';w=ab=c', ';foo=a=b', ';q=1=2' if level == 'base' else ';w=1=2', ';w=0.5;k==v'])
     elif kind == 'too_many':
         if level == 'base':
-            text = R.choice([';1;2;3', ';0;0.5;abc', ';1;1;1;1'])
+            text = R.choice([';1;2;3', ';0;0.5;abc', ';1;1;1;1', ';0;0.5;', ';1;2;;'])
         else:
-            text = R.choice([';0.5;R;z', ';1;S;1;2'])
+            text = R.choice([';0.5;R;z', ';1;S;1;2', ';0.5;R;'])
     else:
         if level == 'base':
             text = R.choice([';q=abc', ';w=x1', ';abc', ';1;abc', ';w=1,5', ';q=--1'])
@@ -325,6 +325,19 @@ def oracle(case):
                        lambda: 'read_fragments: %s: expected %s, got %s (%s)' % (v['fault'], v['exc'], e.sig, e.msg))
             else:
                 raise Fail('fault:accepted', 'read_fragments: %s: no error for %s' % (v['fault'], block))
+            # the same faulty block read INTO a library that already holds (valid) fragments of these names
+            try:
+                lib = read_fragments(case['input'].split('.', 1)[1], all_atom=False)
+            except Exception:
+                lib = None
+            if lib is not None:
+                try:
+                    sut(read_fragments, block, all_atom=False, fragment_dict=lib)
+                except SutError as e:
+                    expect(e.type == v['exc'], 'fault:wrong-exception',
+                           lambda: 'read_fragments(fragment_dict=library): %s: expected %s, got %s (%s)' % (v['fault'], v['exc'], e.sig, e.msg))
+                else:
+                    raise Fail('fault:accepted', 'read_fragments(%s, fragment_dict=<library with these names>): %s: no error' % (block, v['fault']))
         if 'graph' in v:
             try:
                 sut(_call_graph, v['graph'], v.get('coarse', False))
